@@ -10,19 +10,27 @@ package c15
 // and the replayed round state is compared with the live one.
 
 import (
+	"bytes"
+	"encoding/binary"
 	"fmt"
+	"hash/crc32"
+	"math/rand"
 	"os"
 	"os/exec"
 	"path/filepath"
 	"runtime"
+	"sort"
+	"strconv"
 	"strings"
 	"sync"
 	"time"
 
+	tmcfg "github.com/tendermint/tendermint/config"
 	cs "github.com/tendermint/tendermint/consensus"
 	cstypes "github.com/tendermint/tendermint/consensus/types"
 	"github.com/tendermint/tendermint/libs/autofile"
 	"github.com/tendermint/tendermint/libs/log"
+	"github.com/tendermint/tendermint/privval"
 	"github.com/tendermint/tendermint/types"
 
 	"verif/recapp"
@@ -131,6 +139,16 @@ func runReplayCase(c *verdict.Ctx, idx int, tmp string) {
 	walFile := filepath.Join(walDir, "live", "wal")
 	var liveWAL *cs.BaseWAL
 	seed := c.SubSeed("replay-keys", idx)
+	// every second case the observed node signs through a real privval.FilePV (sign state on disk), like a real
+	// node: during a replay that signer answers a request for an earlier round with an error and the last one with
+	// the stored signature, where MockPV signs anything again
+	useFilePV := idx%2 == 1
+	pvDir := filepath.Join(walDir, "live-pv")
+	pvKeyFile, pvStateFile := filepath.Join(pvDir, "key.json"), filepath.Join(pvDir, "state.json")
+	if useFilePV {
+		_ = os.MkdirAll(pvDir, 0o755)
+		c.Count("replay.cases_with_file_signer", 1)
+	}
 	net := sim.NewNet(r, sim.NetOpt{Seed: seed, Powers: cfg.Powers, Faulty: cfg.Faulty, SkipTimeoutCommit: cfg.Skip, InitialHeight: cfg.InitialH,
 		NodeOpt: func(i int) sim.NodeOpt {
 			o := sim.NodeOpt{SkipTimeoutCommit: cfg.Skip}
@@ -146,6 +164,11 @@ func runReplayCase(c *verdict.Ctx, idx int, tmp string) {
 				}
 				liveWAL = w
 				o.WAL = w
+				if useFilePV {
+					fpv := privval.NewFilePV(sim.KeyOf(seed, obs), pvKeyFile, pvStateFile)
+					fpv.Save()
+					o.PV = fpv
+				}
 			}
 			return o
 		}})
@@ -204,7 +227,11 @@ func runReplayCase(c *verdict.Ctx, idx int, tmp string) {
 			return
 		}
 		app := recapp.New(recapp.Options{}) // never called unless the replay (wrongly) commits
-		rep := sim.NewNodeFrom(obs, net.GenDoc, sim.KeyOf(seed, obs), sim.NodeOpt{SkipTimeoutCommit: cfg.Skip, WAL: w2},
+		repOpt := sim.NodeOpt{SkipTimeoutCommit: cfg.Skip, WAL: w2}
+		if useFilePV {
+			repOpt.PV = copyFilePV(pvDir, filepath.Join(cpDir, "pv"))
+		}
+		rep := sim.NewNodeFrom(obs, net.GenDoc, sim.KeyOf(seed, obs), repOpt,
 			sim.CopyMemDB(nd.BlockDB), sim.CopyMemDB(nd.StateDB), sim.CopyMemDB(nd.EvDB), app)
 		if os.Getenv("VERIF_C15B_CASE") != "" {
 			// debug: dump the records after the last end-of-height marker
@@ -303,6 +330,14 @@ func runReplayCase(c *verdict.Ctx, idx int, tmp string) {
 		if c.WantSample() && p == 1 && idx < 3 {
 			c.Sample(map[string]interface{}{"stream": "replay", "case": idx, "point": p, "live_state": live})
 		}
+		// ---- a crash that left a partial record at the end of the head, then the start-up of a real State on it
+		if tr := c.Rand("replay-torn", idx*64+p); tr.Intn(2) == 0 {
+			var pvSrc string
+			if useFilePV {
+				pvSrc = pvDir
+			}
+			runTornTail(c, tr, idx, p, walDir, nd, net, cfg.Skip, obs, seed, pvSrc)
+		}
 		// ---- sometimes the node "restarts" here in the middle of the height: the WAL is closed and opened
 		// again the way the node does it (an empty head gets an #ENDHEIGHT 0 marker), possibly right after the
 		// head was rotated.  The state machine keeps what a successful replay would have restored (checked
@@ -340,6 +375,162 @@ func runReplayCase(c *verdict.Ctx, idx int, tmp string) {
 			liveWAL = w
 			nd.CS.VerifSetWAL(w)
 			c.Count("replay.live_wal_restarts", 1)
+		}
+	}
+}
+
+func copyFilePV(srcDir, dstDir string) *privval.FilePV {
+	_ = os.MkdirAll(dstDir, 0o755)
+	for _, f := range []string{"key.json", "state.json"} {
+		b, err := os.ReadFile(filepath.Join(srcDir, f))
+		if err != nil {
+			panic(err)
+		}
+		if err := os.WriteFile(filepath.Join(dstDir, f), b, 0o600); err != nil {
+			panic(err)
+		}
+	}
+	return privval.LoadFilePV(filepath.Join(dstDir, "key.json"), filepath.Join(dstDir, "state.json"))
+}
+
+// walFrames returns the well-formed records (crc, length, payload) of every file of a WAL group in order,
+// reading each file up to its first malformed record.
+func walFrames(head string) (frames [][]byte, headBytes int) {
+	dir, base := filepath.Dir(head), filepath.Base(head)
+	ents, _ := os.ReadDir(dir)
+	type nf struct {
+		n    int
+		name string
+	}
+	var files []nf
+	for _, e := range ents {
+		if strings.HasPrefix(e.Name(), base+".") {
+			if n, err := strconv.Atoi(strings.TrimPrefix(e.Name(), base+".")); err == nil {
+				files = append(files, nf{n, e.Name()})
+			}
+		}
+	}
+	sort.Slice(files, func(i, j int) bool { return files[i].n < files[j].n })
+	files = append(files, nf{1 << 30, base})
+	for _, f := range files {
+		b, err := os.ReadFile(filepath.Join(dir, f.name))
+		if err != nil {
+			continue
+		}
+		if f.name == base {
+			headBytes = len(b)
+		}
+		for len(b) >= 8 {
+			crc, n := binary.BigEndian.Uint32(b[:4]), int(binary.BigEndian.Uint32(b[4:8]))
+			if n <= 0 || 8+n > len(b) || crc32.Checksum(b[8:8+n], castagnoli) != crc {
+				break
+			}
+			frames = append(frames, b[:8+n])
+			b = b[8+n:]
+		}
+	}
+	return frames, headBytes
+}
+
+// runTornTail: the WAL as flushed at this point plus a partial / garbled record at the end of the head (what a
+// crash in the middle of a write leaves).  A consensus State on copies of the node's stores is started for real
+// on it (State.OnStart: open the WAL, catch-up replay, on a corrupted record back the file up, repair it, open it
+// again, replay) and stopped.  Every record that was in the WAL before the damage must still be there, in order.
+func runTornTail(c *verdict.Ctx, tr *rand.Rand, idx, p int, walDir string, nd *sim.Node, net *sim.Net, skip bool, obs int, seed int64, pvSrc string) {
+	dir := filepath.Join(walDir, fmt.Sprintf("torn-%d", p))
+	defer os.RemoveAll(dir)
+	if out, err := exec.Command("cp", "-a", filepath.Join(walDir, "live"), dir).CombinedOutput(); err != nil {
+		c.HarnessError("cp: %v %s", err, out)
+		return
+	}
+	head := filepath.Join(dir, "wal")
+	before, headBytes := walFrames(head)
+	var tail []byte
+	kind := ""
+	switch tr.Intn(4) {
+	case 0, 1: // the frame header made it, the payload only in part
+		payload := make([]byte, 20+tr.Intn(3000))
+		tr.Read(payload)
+		tail = make([]byte, 8)
+		binary.BigEndian.PutUint32(tail[:4], crc32.Checksum(payload, castagnoli))
+		binary.BigEndian.PutUint32(tail[4:8], uint32(len(payload)))
+		tail = append(tail, payload[:tr.Intn(len(payload))]...)
+		kind = "partial-payload"
+	case 2: // not even the frame header
+		tail = make([]byte, 1+tr.Intn(7))
+		tr.Read(tail)
+		kind = "partial-header"
+	default: // garbage
+		tail = make([]byte, 8+tr.Intn(600))
+		tr.Read(tail)
+		kind = "garbage"
+	}
+	f, err := os.OpenFile(head, os.O_WRONLY|os.O_APPEND, 0o600)
+	if err != nil {
+		c.HarnessError("torn: %v", err)
+		return
+	}
+	_, _ = f.Write(tail)
+	_ = f.Close()
+	conf := tmcfg.TestConsensusConfig()
+	conf.SkipTimeoutCommit = skip
+	conf.SetWalFile(head)
+	// nothing is to happen between the start-up and the stop
+	conf.TimeoutPropose, conf.TimeoutPrevote, conf.TimeoutPrecommit, conf.TimeoutCommit = time.Hour, time.Hour, time.Hour, time.Hour
+	opt := sim.NodeOpt{Config: conf, RealTicker: true}
+	if pvSrc != "" {
+		opt.PV = copyFilePV(pvSrc, filepath.Join(dir, "pv"))
+	}
+	app := recapp.New(recapp.Options{})
+	rep := sim.NewNodeFrom(obs, net.GenDoc, sim.KeyOf(seed, obs), opt, sim.CopyMemDB(nd.BlockDB), sim.CopyMemDB(nd.StateDB), sim.CopyMemDB(nd.EvDB), app)
+	var startErr error
+	panicked := ""
+	func() {
+		defer func() {
+			if x := recover(); x != nil {
+				panicked = fmt.Sprint(x)
+			}
+		}()
+		startErr = rep.CS.Start()
+		if startErr == nil {
+			_ = rep.CS.Stop()
+			rep.CS.Wait()
+		}
+	}()
+	rep.Close()
+	c.Eval()
+	c.Count("torn.starts", 1)
+	c.Count("torn.tail."+kind, 1)
+	if headBytes > 4096 {
+		c.Count("torn.head_longer_than_4096_bytes", 1)
+	}
+	if _, err := os.Stat(head + ".CORRUPTED"); err == nil {
+		c.Count("torn.repair_performed", 1)
+	}
+	after, _ := walFrames(head)
+	w := map[string]interface{}{"stream": "torn", "case": idx, "point": p, "tail_kind": kind, "tail_bytes": len(tail), "head_bytes_before_damage": headBytes,
+		"records_before": len(before), "records_after": len(after), "file_signer": pvSrc != ""}
+	c.Distinct("torn", idx, p, kind, len(before))
+	switch {
+	case panicked != "":
+		c.Violation("start-panics-on-torn-wal-tail", "State.OnStart panicked on a WAL whose head ends in a partial record: "+panicked, w)
+	case startErr != nil:
+		c.Violation("start-fails-on-torn-wal-tail", "State.OnStart failed on a WAL whose head ends in a partial record: "+startErr.Error(), w)
+	default:
+		lost := -1
+		for i := range before {
+			if i >= len(after) || !bytes.Equal(before[i], after[i]) {
+				lost = i
+				break
+			}
+		}
+		if lost >= 0 {
+			w["first_lost_record"] = lost
+			c.Violation("start-on-torn-wal-tail-loses-flushed-records",
+				fmt.Sprintf("after the start-up (repair) on a WAL with a %s at the end of the head, record %d of the %d that were in the WAL before the damage is gone or changed (%d records left)", kind, lost, len(before), len(after)), w)
+		} else {
+			c.Count("torn.all_records_kept", 1)
+			c.Count("torn.records_checked", int64(len(before)))
 		}
 	}
 }
